@@ -95,13 +95,13 @@ type result struct {
 
 // safeQuery is runQuery with a recover: a panic inside the live query becomes
 // a result instead of killing the rerunner's goroutine (and the process).
-func safeQuery(ctx context.Context, q querier, table string, row bool, filter sqlgen.Filter) (res *result) {
+func safeQuery(ctx context.Context, q querier, table string, row bool, filter sqlgen.Filter, where string) (res *result) {
 	defer func() {
 		if p := recover(); p != nil {
 			res = &result{err: fmt.Errorf("panic: %v", p), panicked: true, stack: vlib.Trunc(string(debug.Stack()), 3000)}
 		}
 	}()
-	return runQuery(ctx, q, table, row, filter)
+	return runQuery(ctx, q, table, row, filter, where)
 }
 
 func (r *result) String() string {
@@ -124,12 +124,18 @@ type querier interface {
 }
 
 // runQuery performs Query or QueryRow on table and folds the outcome.
-func runQuery(ctx context.Context, q querier, table string, row bool, filter sqlgen.Filter) *result {
+// where is a custom SelectOptions.Where ("" = no options); the options object
+// is fresh for every call because sqlgen merges the filter into it.
+func runQuery(ctx context.Context, q querier, table string, row bool, filter sqlgen.Filter, where string) *result {
+	var opts *sqlgen.SelectOptions
+	if where != "" {
+		opts = &sqlgen.SelectOptions{Where: where}
+	}
 	typ := tableTypes[table]
 	res := &result{rows: map[string]interface{}{}}
 	if row {
 		out := reflect.New(reflect.PtrTo(typ))
-		err := q.QueryRow(ctx, out.Interface(), filter, nil)
+		err := q.QueryRow(ctx, out.Interface(), filter, opts)
 		switch {
 		case err == nil && !out.Elem().IsNil():
 			k := keyOf(out.Elem().Interface())
@@ -148,7 +154,7 @@ func runQuery(ctx context.Context, q querier, table string, row bool, filter sql
 		return res
 	}
 	out := reflect.New(reflect.SliceOf(reflect.PtrTo(typ)))
-	if err := q.Query(ctx, out.Interface(), filter, nil); err != nil {
+	if err := q.Query(ctx, out.Interface(), filter, opts); err != nil {
 		res.err = err
 		return res
 	}
@@ -192,11 +198,11 @@ func sameResult(got, want *result) bool {
 }
 
 // expected evaluates what the database returns now, without liveness.
-func expected(db *sqlgen.DB, table string, row bool, filter sqlgen.Filter) *result {
+func expected(db *sqlgen.DB, table string, row bool, filter sqlgen.Filter, where string) *result {
 	bg := fakesql.WithTag(context.Background(), "expected")
-	res := runQuery(bg, db, table, row, filter)
+	res := runQuery(bg, db, table, row, filter, where)
 	if row && res.class == "many" {
-		all := runQuery(bg, db, table, false, filter)
+		all := runQuery(bg, db, table, false, filter, where)
 		if all.err != nil || len(all.keys) < 2 {
 			res.err = fmt.Errorf("QueryRow failed with %v although Query returns %d rows (%v)", res.err, len(all.keys), all.err)
 			return res
@@ -229,7 +235,7 @@ func testerCase(run *vlib.Run, i int) {
 	for k := 0; k < n; k++ {
 		db.InsertRow(bg, genRow(r, table)) // duplicate keys are simply rejected
 	}
-	all := runQuery(bg, db, table, false, nil)
+	all := runQuery(bg, db, table, false, nil, "")
 	if all.err != nil || len(all.keys) == 0 {
 		run.Broken(fmt.Sprintf("tester case %d: reading %s: %v", i, table, all.err))
 		return
@@ -251,7 +257,7 @@ func testerCase(run *vlib.Run, i int) {
 		if table == "wides" && r.Intn(6) == 0 {
 			fd = genWideFilter(r, structs[all.keys[r.Intn(len(all.keys))]].(*Wide))
 		}
-		sel := runQuery(bg, db, table, false, fd.filter)
+		sel := runQuery(bg, db, table, false, fd.filter, "")
 		if sel.err != nil {
 			run.Broken(fmt.Sprintf("tester case %d: Query(%s, %s): %v", i, table, fd, sel.err))
 			return
@@ -314,6 +320,7 @@ type liveQuery struct {
 	table string
 	row   bool
 	fd    filterDesc
+	where string // custom SelectOptions.Where ("" = nil options)
 
 	mu         sync.Mutex
 	runs       int
@@ -327,6 +334,9 @@ func (q *liveQuery) describe() string {
 	op := "Query"
 	if q.row {
 		op = "QueryRow"
+	}
+	if q.where != "" {
+		return fmt.Sprintf("live#%d %s(%s, %s, Where: %q)", q.id, op, q.table, q.fd, q.where)
 	}
 	return fmt.Sprintf("live#%d %s(%s, %s)", q.id, op, q.table, q.fd)
 }
@@ -386,12 +396,14 @@ type history struct {
 	events      []evRec
 	reordered   string // table whose columns were permuted
 	failLookups map[string]lookupFault
-	eventLog    []string
-	deliverCh   chan []*replication.BinlogEvent
-	deliverDone chan struct{}
-	delayR      *rand.Rand
-	hookR       *rand.Rand
-	hookMu      sync.Mutex
+	// pendingFault: the next rows event of the table is made undecodable
+	pendingFault map[string]string
+	eventLog     []string
+	deliverCh    chan []*replication.BinlogEvent
+	deliverDone  chan struct{}
+	delayR       *rand.Rand
+	hookR        *rand.Rand
+	hookMu       sync.Mutex
 
 	commits     int64
 	pushed      int64
@@ -450,7 +462,12 @@ func (h *history) onCommit(changes []fakesql.RowChange) {
 		ord := h.eventCount
 		h.eventCount++
 		desc := fmt.Sprintf("event %d (commit %d): %s %s %d row image(s)", ord, idx, kind, table, len(rows))
-		if fk, ok := h.faultAt[ord]; ok {
+		fk, ok := h.faultAt[ord]
+		if pf, pending := h.pendingFault[table]; pending {
+			fk, ok = pf, true
+			delete(h.pendingFault, table)
+		}
+		if ok {
 			applied := ""
 			switch {
 			case fk == "oddrows" && kind == fakesql.RowUpdate:
@@ -656,6 +673,7 @@ func (h *history) faultHook(st *fakesql.Stmt) *fakesql.Fault {
 }
 
 type writeOp struct {
+	fault string // make the (first) event of this write undecodable
 	kind  string
 	table string
 	rows  []interface{}
@@ -725,6 +743,11 @@ func typedSlice(table string, rows []interface{}) interface{} {
 
 func (h *history) apply(ctx context.Context, op writeOp) {
 	var err error
+	if op.fault != "" {
+		h.mu.Lock()
+		h.pendingFault[op.table] = op.fault
+		h.mu.Unlock()
+	}
 	switch op.kind {
 	case "InsertRow":
 		_, err = h.db.InsertRow(ctx, op.rows[0])
@@ -742,6 +765,22 @@ func (h *history) apply(ctx context.Context, op writeOp) {
 		h.alter(op.table, op.renew)
 	case "Reorder":
 		h.reorder(op.table)
+	case "SoftDelete", "Undelete":
+		var val interface{}
+		if op.kind == "SoftDelete" {
+			val = int64(1700000000)
+		}
+		var where string
+		var args []interface{}
+		switch x := op.rows[0].(type) {
+		case *Wide:
+			where, args = "id = ?", []interface{}{x.Id}
+		case *Pair:
+			where, args = "a = ? AND b = ?", []interface{}{x.A, x.B}
+		case *Tiny:
+			where, args = "k = ?", []interface{}{x.K}
+		}
+		_, err = h.db.QueryExecer(ctx).ExecContext(ctx, "UPDATE "+op.table+" SET deleted_at = ? WHERE "+where, append([]interface{}{val}, args...)...)
 	case "RenewTableID":
 		h.renewTableID(op.table, op.renew)
 	case "Tx":
@@ -778,7 +817,7 @@ func runHistory(run *vlib.Run, i int, fixed *fixedPlan) {
 	fmt.Println("CASE history", i)
 	r := run.Rand("history", i)
 	h := &history{run: run, idx: i, r: r, logger: &quietLogger{}, tableIDs: map[string]uint64{}, announced: map[string]uint64{}, staleMap: map[string]bool{},
-		faultAt: map[int]string{}, failLookups: map[string]lookupFault{}, deliverCh: make(chan []*replication.BinlogEvent, 4096), deliverDone: make(chan struct{}),
+		faultAt: map[int]string{}, failLookups: map[string]lookupFault{}, pendingFault: map[string]string{}, deliverCh: make(chan []*replication.BinlogEvent, 4096), deliverDone: make(chan struct{}),
 		delayR: rand.New(rand.NewSource(r.Int63())), hookR: rand.New(rand.NewSource(r.Int63())), byID: map[int]*liveQuery{}, forms: map[string]map[string]blForm{}}
 	h.eng = fakesql.New("", database)
 	defer h.eng.Dispose()
@@ -820,6 +859,19 @@ func runHistory(run *vlib.Run, i int, fixed *fixedPlan) {
 		h.db.InsertRow(bg, genRow(r, "tinies"))
 	}
 
+	// a table that is wider than its Go model: a soft-delete column the struct
+	// does not map, used by live queries through SelectOptions.Where and
+	// written with plain SQL
+	widened := ""
+	if fixed == nil && r.Intn(3) == 0 {
+		widened = tableNames[r.Intn(len(tableNames))]
+		if err := h.eng.AddColumn(widened, fakesql.ColumnDef{Name: "deleted_at", Kind: fakesql.KInt}); err != nil {
+			run.Broken(err.Error())
+			return
+		}
+		run.Count("histories_with_unmapped_column", 1)
+	}
+
 	// fault plan
 	nWriters := 1 + r.Intn(3)
 	var plans [][]writeOp
@@ -832,8 +884,28 @@ func runHistory(run *vlib.Run, i int, fixed *fixedPlan) {
 		totalOps += len(ops)
 		plans = append(plans, ops)
 	}
+	if widened != "" {
+		// soft deletes / undeletes of existing rows, spread over the writers
+		for k := 0; k < 4+r.Intn(5); k++ {
+			row := genRow(r, widened)
+			if wd, ok := row.(*Wide); ok {
+				wd.Id = 1 + r.Int63n(maxWide+1)
+			}
+			op := writeOp{kind: "SoftDelete", table: widened, rows: []interface{}{row}}
+			if r.Intn(3) == 0 {
+				op.kind = "Undelete"
+			}
+			w := r.Intn(nWriters)
+			at := r.Intn(len(plans[w]) + 1)
+			plans[w] = append(plans[w][:at:at], append([]writeOp{op}, plans[w][at:]...)...)
+			totalOps++
+		}
+	}
 	faulty := r.Intn(5) < 2
 	schemaChange := ""
+	if widened != "" {
+		schemaChange = "unmapped-column" // no further schema change in these histories
+	}
 	if fixed != nil {
 		nWriters, plans, totalOps, faulty = 1, [][]writeOp{fixed.ops}, len(fixed.ops), false
 		h.faultAt = fixed.faultAt
@@ -848,7 +920,7 @@ func runHistory(run *vlib.Run, i int, fixed *fixedPlan) {
 			h.faultAt[ord] = []string{"colcount", "badkind", "oddrows"}[r.Intn(3)]
 		}
 	}
-	if fixed == nil && r.Intn(4) == 0 {
+	if fixed == nil && widened == "" && r.Intn(4) == 0 {
 		// a schema change in the middle of some writer's plan
 		w := r.Intn(nWriters)
 		at := r.Intn(len(plans[w]) + 1)
@@ -932,9 +1004,70 @@ func runHistory(run *vlib.Run, i int, fixed *fixedPlan) {
 		plans[w] = append(plans[w][:at:at], append(mid, plans[w][at:]...)...)
 	}
 
+	burst := false
+	if fixed == nil && !faulty && schemaChange == "" && r.Intn(5) == 0 {
+		// an undecodable event immediately followed by decodable events of the
+		// same table (a write burst), with delayed application so that they wait
+		// in the applier's queue together; a dedicated live query depends on the
+		// undecodable write only
+		burst = true
+		schemaChange = "fault-then-burst"
+		table := tableNames[r.Intn(len(tableNames))]
+		row := genRow(r, table)
+		var first writeOp
+		var fd filterDesc
+		var later []writeOp
+		switch x := row.(type) {
+		case *Wide:
+			first = writeOp{kind: "InsertRow", table: table, rows: []interface{}{row}}
+			fd = filterDesc{filter: sqlgen.Filter{"name": x.Name, "i8": x.I8, "u8": x.U8, "mood": x.Mood}, reps: map[string]string{"name": "own", "i8": "own", "u8": "own", "mood": "own"}}
+			for k := 0; k < 2+r.Intn(3); k++ {
+				o := genWide(r)
+				o.Name = "burst" // never matches the dedicated query
+				later = append(later, writeOp{kind: "InsertRow", table: table, rows: []interface{}{o}})
+			}
+		case *Pair:
+			x.A, x.N = 7, 43
+			first = writeOp{kind: "UpsertRow", table: table, rows: []interface{}{row}}
+			fd = filterDesc{filter: sqlgen.Filter{"a": x.A, "b": x.B}, reps: map[string]string{"a": "own", "b": "own"}}
+			for k := 0; k < 2+r.Intn(3); k++ {
+				o := genPair(r)
+				o.A, o.N = int32(8+k), int64(r.Intn(50))
+				later = append(later, writeOp{kind: "UpsertRow", table: table, rows: []interface{}{o}})
+			}
+		case *Tiny:
+			x.K, x.Cnt = "burst-first", 43
+			first = writeOp{kind: "UpsertRow", table: table, rows: []interface{}{row}}
+			fd = filterDesc{filter: sqlgen.Filter{"k": x.K}, reps: map[string]string{"k": "own"}}
+			for k := 0; k < 2+r.Intn(3); k++ {
+				o := genTiny(r)
+				o.K, o.Cnt = fmt.Sprintf("burst-%d", k), uint16(r.Intn(50))
+				later = append(later, writeOp{kind: "UpsertRow", table: table, rows: []interface{}{o}})
+			}
+		}
+		first.fault = []string{"colcount", "badkind"}[r.Intn(2)]
+		lookupSentinel = &liveQuery{table: table, fd: fd}
+		w := r.Intn(nWriters)
+		at := len(plans[w]) - r.Intn(len(plans[w])/3+1)
+		if r.Intn(2) == 0 {
+			// the burst as one transaction: its events are produced at once
+			mid := []writeOp{{kind: "Tx", ok: true, tx: append([]writeOp{first}, later...)}}
+			plans[w] = append(plans[w][:at:at], append(mid, plans[w][at:]...)...)
+		} else {
+			plans[w] = append(plans[w][:at:at], append(append([]writeOp{first}, later...), plans[w][at:]...)...)
+		}
+	}
+
 	// binlog
 	b, push, fail := livesql.NewBinlogForVerif(h.ldb, database)
 	b.SetLogger(h.logger)
+	if burst || r.Intn(3) == 0 {
+		// replica-lag compensation: updates are applied a few milliseconds after
+		// they were read, so several of them wait in the applier's queue at once
+		d := time.Duration(1+r.Intn(5)) * time.Millisecond
+		b.SetUpdateDelay(d)
+		run.Count("histories_with_update_delay", 1)
+	}
 	h.push = push
 	pollDone := make(chan error, 1)
 	go func() { pollDone <- b.RunPollLoop() }()
@@ -973,6 +1106,7 @@ func runHistory(run *vlib.Run, i int, fixed *fixedPlan) {
 	nRerunners := 1 + r.Intn(6)
 	var rerunners []*reactive.Rerunner
 	var perRerunner [][]*liveQuery
+	var reuseMap []bool
 	qid := 0
 	if fixed != nil {
 		nRerunners = 0
@@ -985,10 +1119,22 @@ func runHistory(run *vlib.Run, i int, fixed *fixedPlan) {
 	for k := 0; k < nRerunners; k++ {
 		var qs []*liveQuery
 		seen := map[string]bool{}
-		for j := 0; j < 1+r.Intn(3); j++ {
+		// a quarter of the rerunners issue all their queries (on one table)
+		// from one re-used Filter map
+		reuse := r.Intn(4) == 0
+		reuseMap = append(reuseMap, reuse)
+		oneTable := tableNames[r.Intn(len(tableNames))]
+		nq := 1 + r.Intn(3)
+		if reuse {
+			nq = 2 + r.Intn(2)
+		}
+		for j := 0; j < nq; j++ {
 			table := tableNames[r.Intn(len(tableNames))]
+			if reuse {
+				table = oneTable
+			}
 			fd := genFilter(r, table, int(maxWide))
-			if r.Intn(12) == 0 {
+			if r.Intn(12) == 0 && (!reuse || oneTable == "wides") {
 				// a wide filter: 9+ SQL arguments, some of them NULL
 				table, fd = "wides", genWideFilter(r, initialWides[r.Intn(len(initialWides))])
 				run.Count("live_wide_null_filters", 1)
@@ -999,6 +1145,9 @@ func runHistory(run *vlib.Run, i int, fixed *fixedPlan) {
 			seen[table+fd.String()] = true
 			qid++
 			q := &liveQuery{id: qid, table: table, row: r.Intn(4) == 0, fd: fd}
+			if table == widened && r.Intn(2) == 0 {
+				q.where = "deleted_at IS NULL"
+			}
 			qs = append(qs, q)
 			h.queries = append(h.queries, q)
 			h.byID[q.id] = q
@@ -1023,6 +1172,22 @@ func runHistory(run *vlib.Run, i int, fixed *fixedPlan) {
 		}
 		perRerunner = append(perRerunner, qs)
 	}
+	if widened != "" {
+		// live queries that depend on the unmapped column only through their options
+		var qs []*liveQuery
+		for j := 0; j < 2; j++ {
+			fd := filterDesc{filter: sqlgen.Filter{}, reps: map[string]string{}}
+			if j == 1 {
+				fd = sentinelFilter(r, widened)
+			}
+			qid++
+			q := &liveQuery{id: qid, table: widened, fd: fd, where: "deleted_at IS NULL"}
+			qs = append(qs, q)
+			h.queries = append(h.queries, q)
+			h.byID[q.id] = q
+		}
+		perRerunner = append(perRerunner, qs)
+	}
 	if lookupSentinel != nil {
 		qid++
 		lookupSentinel.id = qid
@@ -1031,18 +1196,37 @@ func runHistory(run *vlib.Run, i int, fixed *fixedPlan) {
 		perRerunner = append(perRerunner, []*liveQuery{lookupSentinel})
 	}
 	nRerunners = len(perRerunner)
+	for len(reuseMap) < nRerunners {
+		reuseMap = append(reuseMap, false)
+	}
 	spawn := make([]bool, nRerunners)
 	for k := range spawn {
 		spawn[k] = r.Intn(2) == 0
 	}
 	for k := 0; k < nRerunners; k++ {
 		qs := perRerunner[k]
+		var shared sqlgen.Filter
+		if reuseMap[k] && len(qs) > 0 {
+			shared = sqlgen.Filter{}
+			run.Count("rerunners_reusing_one_filter_map", 1)
+		}
 		rr := reactive.NewRerunner(bg, func(ctx context.Context) (interface{}, error) {
 			atomic.AddInt64(&h.computeRuns, 1)
 			atomic.AddInt64(&h.inflight, 1)
 			defer atomic.AddInt64(&h.inflight, -1)
 			for _, q := range qs {
-				res := safeQuery(fakesql.WithTag(ctx, q.id), h.ldb, q.table, q.row, q.fd.filter)
+				filter := q.fd.filter
+				if shared != nil {
+					// this caller keeps ONE Filter map and refills it for every query
+					for c := range shared {
+						delete(shared, c)
+					}
+					for c, v := range q.fd.filter {
+						shared[c] = v
+					}
+					filter = shared
+				}
+				res := safeQuery(fakesql.WithTag(ctx, q.id), h.ldb, q.table, q.row, filter, q.where)
 				q.mu.Lock()
 				q.runs++
 				q.last = res
@@ -1050,6 +1234,15 @@ func runHistory(run *vlib.Run, i int, fixed *fixedPlan) {
 					q.resultSnap, q.snapFresh = q.snapSeen, false
 				}
 				q.mu.Unlock()
+			}
+			if shared != nil {
+				// ... and goes on using the map for something else afterwards
+				for c := range shared {
+					delete(shared, c)
+				}
+				for c, v := range blindFilter[qs[0].table] {
+					shared[c] = v
+				}
 			}
 			return nil, nil
 		}, time.Millisecond, spawn[k])
@@ -1094,7 +1287,7 @@ func runHistory(run *vlib.Run, i int, fixed *fixedPlan) {
 	// the database is final now
 	want := map[int]*result{}
 	for _, q := range h.queries {
-		want[q.id] = expected(h.db, q.table, q.row, q.fd.filter)
+		want[q.id] = expected(h.db, q.table, q.row, q.fd.filter, q.where)
 		if want[q.id].err != nil {
 			run.Broken(fmt.Sprintf("history %d: reference for %s: %v", i, q.describe(), want[q.id].err))
 		}
@@ -1312,6 +1505,14 @@ func pinnedWide(run *vlib.Run) {
 		filter: sqlgen.Filter{"i8": int8(0), "i16": Rank(0), "i32": int32(0), "u8": uint8(0), "u32": uint32(0), "u64": uint64(0), "flag": false, "name": "zz", "p_i": nil},
 		reps:   map[string]string{"i8": "own", "i16": "own", "i32": "own", "u8": "own", "u32": "own", "u64": "own", "flag": "own", "name": "own", "p_i": "nil"}}}
 	runHistory(run, 1000010, &fixedPlan{name: "wide-null-filter", queries: []*liveQuery{q}, ops: nil, faultAt: map[int]string{}})
+}
+
+// blindFilter is what a caller's re-used Filter map holds after its queries: a
+// filter that matches no row of the table.
+var blindFilter = map[string]sqlgen.Filter{
+	"wides":  {"id": int64(-7)},
+	"pairs":  {"b": "\x00never"},
+	"tinies": {"k": "\x00never"},
 }
 
 func orUnclassified(c string) string {
